@@ -1,12 +1,37 @@
 #!/usr/bin/env python3
-"""setup: warm the caches the checks use (Kani build of both crates).  Checks work without it, only slower."""
-import os, subprocess, sys
+"""setup: warm the build caches the checks use (dependencies of both crates under Kani and natively).
+Checks work without it (they rebuild what is missing), only slower; nothing here is needed for correctness and a
+failure here is not fatal."""
+import os, shutil, subprocess, sys, tempfile
 HERE = os.path.dirname(os.path.abspath(__file__))
 VERIF = os.path.dirname(HERE)
-os.makedirs(os.path.join(VERIF, '.cache'), exist_ok=True)
+REPO = os.environ.get('VERIF_REPO', '/repo')
+cache = os.path.join(VERIF, '.cache')
+os.makedirs(cache, exist_ok=True)
 os.makedirs(os.path.join(VERIF, 'evidence'), exist_ok=True)
-r = subprocess.run(['verus', '--version'], capture_output=True, text=True)
-print(r.stdout.strip()[:200])
-r = subprocess.run(['cargo', 'kani', '--version'], capture_output=True, text=True)
-print(r.stdout.strip()[:200])
+os.makedirs(os.path.join(VERIF, 'replays'), exist_ok=True)
+for cmd in (['verus', '--version'], ['cargo', 'kani', '--version']):
+    try:
+        r = subprocess.run(cmd, capture_output=True, text=True, timeout=60)
+        print((r.stdout or r.stderr).strip().splitlines()[0] if (r.stdout or r.stderr).strip() else cmd)
+    except Exception as e:  # noqa
+        print('tool check failed:', cmd, e)
+tmp = tempfile.mkdtemp(prefix='verif-setup-', dir=os.environ.get('TMPDIR', '/tmp'))
+try:
+    ws = os.path.join(tmp, 'ws')
+    subprocess.run(['rsync', '-a', '--exclude', 'target', '--exclude', '.git', REPO + '/', ws + '/'], check=True)
+    env = dict(os.environ, CARGO_NET_OFFLINE='true')
+    jobs = [
+        (dict(env, CARGO_TARGET_DIR=os.path.join(cache, 'native-target')), ['cargo', 'test', '--offline', '-p', 'rumqttc', '-p', 'rumqttd', '--lib', '--no-run']),
+        (dict(env, CARGO_TARGET_DIR=os.path.join(cache, 'kani-target')), ['cargo', 'kani', '-p', 'rumqttc', '-Z', 'function-contracts', '-Z', 'stubbing', '-Z', 'unstable-options', '--only-codegen']),
+        (dict(env, CARGO_TARGET_DIR=os.path.join(cache, 'kani-target')), ['cargo', 'kani', '-p', 'rumqttd', '-Z', 'function-contracts', '-Z', 'stubbing', '-Z', 'unstable-options', '--only-codegen']),
+    ]
+    for e, cmd in jobs:
+        try:
+            r = subprocess.run(cmd, cwd=ws, env=e, capture_output=True, text=True, timeout=1500)
+            print(' '.join(cmd[:4]), '... rc', r.returncode)
+        except Exception as ex:  # noqa
+            print('warm-up step skipped:', ' '.join(cmd[:4]), ex)
+finally:
+    shutil.rmtree(tmp, ignore_errors=True)
 sys.exit(0)
